@@ -68,7 +68,8 @@ def t1_analyze(F, res):
             for fd in v["fields"]:
                 if (short, fd["name"]) in grow:
                     rows[(f["path"], v["name"], fd["name"])] = grow[(short, fd["name"])]
-        res.add(e3.check_impl_method(F, f, st, fam, "ref", "T1", rows, path_ok_blocks=_reporting_blocks))
+        res.add(e3.check_impl_method(F, f, st, fam, "ref", "T1", rows, path_ok_blocks=lambda fn: _reporting_blocks(fn) | _child_reported_blocks(fn)))
+    identifier_invariant(F, res)
     res.count("Analyzable::analyze impls on AST types", n)
     res.floor("Analyzable::analyze impls on AST types", n, 55)
     res.floor("AST family types", len(fam), 55)
@@ -283,9 +284,82 @@ def _reporting_blocks(fn):
         t = b["t"]
         if t["k"] == "call":
             c = t.get("callee") or ""
-            if c.startswith("tx3_lang::analyzing::Error::") or (t.get("trait") == "tx3_lang::analyzing::Analyzable" and t.get("method") == "analyze"):
+            if c.startswith("tx3_lang::analyzing::Error::"):
                 out.add(bi)
     return out
+
+
+IDENT = "tx3_lang::ast::Identifier"
+
+
+def _child_reported_blocks(fn):
+    """The `None` arm of a match on `self.<f>.symbol`, where `<f>` is an Identifier this very body has analysed before the
+    match: Identifier::analyze leaves `symbol` unset only together with its NotInScope diagnostic (checked by
+    `identifier_invariant`), so on that arm the child's report - which is what such an arm returns - already carries the error.
+    Nothing else about a child's report excuses skipping a field (a clean report of one child says nothing about another)."""
+    out = set()
+    du = mir.DefUse(fn)
+    cfg = mir.CFG(fn)
+    # blocks that call analyze on `self.<f>` (an Identifier), by field name
+    analysed = {}
+    for bi, t in mir.calls(fn):
+        if t.get("trait") == ANALYZABLE and t.get("method") == "analyze" and t["args"]:
+            for o in mir.provenance(fn, du, t["args"][0]):
+                if o.kind == "arg" and o.local == 1 and o.proj:
+                    analysed.setdefault(o.proj[-1].lstrip("."), []).append(bi)
+    for bi, b in enumerate(fn["blocks"]):
+        if b["cleanup"] or b["t"]["k"] != "switch":
+            continue
+        for s in b["s"]:
+            rv = s["rv"]
+            if rv["k"] != "discr" or rv.get("adt") != "std::option::Option":
+                continue
+            dpl = mir.op_place(b["t"]["discr"])
+            if dpl is None or dpl["l"] != s["lhs"]["l"]:
+                continue
+            pl = rv["pl"]
+            fields = [q for q in pl["p"] if q[0] == "f"]
+            if not fields:
+                # through `&self.f.symbol`
+                src = [st for _, _, st in mir.stmts(fn) if st["lhs"]["l"] == pl["l"] and not st["lhs"]["p"] and st["rv"]["k"] == "ref"]
+                if len(src) != 1:
+                    continue
+                pl = src[0]["rv"]["pl"]
+                fields = [q for q in pl["p"] if q[0] == "f"]
+            if len(fields) < 2 or fields[-1][1] != "symbol" or fields[-1][2] != IDENT or pl["l"] != 1:
+                continue
+            owner = fields[-2][1]
+            if not any(cfg.dominates(ab, bi) for ab in analysed.get(owner, [])):
+                continue
+            for v, tb in b["t"]["targets"]:
+                if v == 0:
+                    out.add(tb)
+    return out
+
+
+def identifier_invariant(F, res):
+    """What `_child_reported_blocks` relies on: every return of Identifier::analyze has either built a diagnostic or assigned
+    `self.symbol`."""
+    f = F.fn("<%s as %s>::analyze" % (IDENT, ANALYZABLE))
+    stop = set(_reporting_blocks(f))
+    for bi, si, s in mir.stmts(f):
+        if [q for q in s["lhs"]["p"] if q[0] == "f" and q[1] == "symbol" and q[2] == IDENT]:
+            stop.add(bi)
+    cfg = mir.CFG(f)
+    seen, st, bad = set(), [0], None
+    while st:
+        b = st.pop()
+        if b in seen or b in stop or f["blocks"][b]["cleanup"]:
+            continue
+        seen.add(b)
+        if f["blocks"][b]["t"]["k"] == "return":
+            bad = b
+        st.extend(cfg.succ[b])
+    key = f["path"] + "|symbol unset only with a diagnostic"
+    if bad is None:
+        res.add([ok("T1", key, where(f), "every return has either built a diagnostic or assigned self.symbol")])
+    else:
+        res.add([finding("T1", key, where(f), "Identifier::analyze can return a clean report without resolving the symbol: callers that skip their remaining children when `symbol` is None then accept a program whose children were never analysed")])
 
 
 def s_depth(F, res):
